@@ -373,6 +373,16 @@ func (j *judge) runWriterModel(wi int, strictFaultFree bool) {
 				break
 			}
 			m.offered = append(m.offered, offeredBytes(j, ws, wo, opi)...)
+			if r.SrcFault {
+				// C15: the source of ReadFrom failed: that error is returned
+				justified = true
+				if r.Err.Nil {
+					j.add("fault-swallowed", "readfrom-source", "W%d op %d: the ReadFrom source failed with the injected error but ReadFrom returned nil after %d bytes", wi, opi, r.N)
+					m.failed = true
+				} else if !r.Err.Injected && !m.failed && !m.faultFired() {
+					j.add("error-not-faithful", "readfrom-source", "W%d op %d: the ReadFrom source failed with the injected error but ReadFrom returned %s", wi, opi, r.Err.Msg)
+				}
+			}
 			if r.Err.Nil {
 				if int(r.N) != asked {
 					j.add("short-write-no-error", op.Op, "W%d op %d: %s returned n=%d of %d with a nil error", wi, opi, op.Op, r.N, asked)
